@@ -9,7 +9,7 @@ from . import pool
 from . import common
 from . import joinmodel as J
 
-RULE = ("(a) directed: for every shape rows 0-3 x columns 0-3, 16 structural operations (>> vector / list / dict / table with right and wrong "
+RULE = ("(a) directed: for every shape rows 0-3 x columns 0-3, 19 structural operations (incl. attribute assignment from generators / iterators / map / zip of right and wrong size, and whole-table / region item assignment from a table with a different row count) (>> vector / list / dict / table with right and wrong "
 	"lengths, << row with right, short and long width, << table, row slices, row masks, .T.T, attribute assignment with right and wrong length, "
 	"Table([...]) / Table({...}) / Vector([...]) with unequal columns) are executed and compared cell for cell with list models: >> leaves existing "
 	"columns untouched, << appends to every column, row selection is uniform, transposing twice restores the cells, ragged input is rejected (raises "
@@ -26,7 +26,7 @@ ANCHOR_FUNCS = ["table:Table.__init__", "table:Table.__rshift__", "table:Table._
 REQUIRED_STRATA = {"structural": 200, "steps": 2000}
 
 OPS = [">>vector", ">>vector-wrong", ">>list", ">>dict", ">>dict-wrong", ">>table", ">>table-wrong", "<<row", "<<row-short", "<<row-long", "<<table",
-	"rowslice", "rowmask", "T.T", "attr", "attr-wrong", "ragged-ctor"]
+	"rowslice", "rowmask", "T.T", "attr", "attr-wrong", "ragged-ctor", "attr-iterable", "setitem-table"]
 
 
 def mk(rng, r, c):
@@ -197,6 +197,48 @@ def run_structural(chk, spec):
 			if any(not M.eq_list(g, e) for g, e in zip(got, exp)):
 				chk.fail("attribute assignment replaces exactly that column", "structural/attr/wrong-cells", f"{spec!r}: {short(got, 160)} vs {short(exp, 160)}")
 		fail_rect(chk, t, "after " + op, spec)
+	elif op == "attr-iterable":
+		# attribute assignment from iterables without __len__ (generator, iterator, map, zip), right and wrong sizes
+		if c == 0:
+			chk.skip("structural-no-columns")
+			return
+		form, delta = spec["key"]
+		m = max(0, r + delta)
+		vals = [pool.make_like(rng, next((x for x in cols[0] if x is not None), 1)) for _ in range(m)]
+		src = {0: (x for x in vals), 1: iter(vals), 2: map(lambda x: x, vals), 3: (a for a, _ in zip(vals, vals)), 4: tuple(vals), 5: range(m) if all(isinstance(x, int) for x in cols[0]) else list(vals)}[form]
+		o = call(lambda: setattr(t, "a", src))
+		if m != r:
+			if o.ok and pool.rect_violation(t):
+				chk.fail("input that would make a table ragged is rejected rather than stored", "structural/attr-iterable/ragged-accepted",
+					f"{spec!r}: t.a = <iterable form {form} yielding {m} items> on {r} rows was stored; column lengths {[len(x) for x in t.cols()]}")
+			elif not o.ok and M.snap_table(t) != before:
+				chk.fail("a rejected update leaves the table as it was", "structural/attr-iterable/rejected-update-changed-table", f"{spec!r}")
+		fail_rect(chk, t, "after attr-iterable", spec)
+	elif op == "setitem-table":
+		# item assignment of a whole table / region from another table whose row count may differ
+		if c == 0 or r == 0:
+			chk.skip("structural-no-cells")
+			return
+		keyform, delta = spec["key"]
+		m = max(0, r + delta)
+		other = Table([Vector([pool.make_like(rng, next((x for x in col if x is not None), [1, "s", 2.5][i % 3])) for _ in range(m)] or [], name=f"o{i}") for i, col in enumerate(cols)]) if m else None
+		if other is None:
+			chk.skip("structural-empty-source")
+			return
+		key = {0: slice(None), 1: (slice(None), slice(None)), 2: (slice(0, r), slice(0, c)), 3: (slice(None), slice(0, c))}[keyform]
+		o = call(lambda: t.__setitem__(key, other))
+		if m != r:
+			if o.ok and (pool.rect_violation(t) or len(t) != r):
+				chk.fail("input that would make a table ragged is rejected rather than stored", "structural/setitem-table/wrong-row-count-accepted",
+					f"{spec!r}: assigning a {m}-row table over {r} rows was accepted; len(t)={len(t)}, column lengths {[len(x) for x in t.cols()]}")
+		elif not o.ok:
+			chk.fail("a region of matching shape can be assigned", f"structural/setitem-table/raises/{type(o.exc).__name__}", f"{spec!r}: {o!r}")
+		else:
+			exp = [list(x._underlying) for x in other.cols()]
+			got = tcells(t)
+			if any(not M.eq_list(g, e) for g, e in zip(got, exp)):
+				chk.fail("table assignment writes the addressed cells", "structural/setitem-table/wrong-cells", f"{spec!r}: {short(got, 160)} vs {short(exp, 160)}")
+		fail_rect(chk, t, "after setitem-table", spec)
 	elif op == "ragged-ctor":
 		a = Vector(V.column(rng, "int", r + 1, "none", small=True), name="a")
 		b = Vector(V.column(rng, "int", r, "none", small=True), name="b")
@@ -236,6 +278,10 @@ def run(chk):
 					variants = [(m, flag) for m in range(2 ** r) for flag in (0, 1)]
 				elif op in ("attr", "attr-wrong", "ragged-ctor"):
 					variants = [(0, 0), (0, 1)]
+				elif op == "attr-iterable":
+					variants = [(form, delta) for form in range(6) for delta in (0, 1, 2, -1)]
+				elif op == "setitem-table":
+					variants = [(kf, delta) for kf in range(4) for delta in (0, 1, -1, 2)]
 				for key in variants:
 					idx += 1
 					if not chk.mine(idx):
